@@ -107,7 +107,7 @@ def run_C05(ctx, rep):
 def run_C02(ctx, rep):
     lib_rules.check_L1(ctx, rep)
     lib_rules.check_L13(ctx, rep)
-    gen_driver.run_gen(ctx, rep, ['G1G3', 'G2G7', 'G5', 'G6', 'G10', 'G12'], only_par=True, floors={'G1': 100, 'G6': 15, 'G10': 15, 'G4': 4})
+    gen_driver.run_gen(ctx, rep, ['G1G3', 'G2G7', 'G5', 'G6', 'G10', 'G12', 'G14'], only_par=True, floors={'G1': 100, 'G6': 15, 'G10': 15, 'G4': 4, 'G14': 100})
     gen_driver.run_ser_par_twins(ctx, rep)
 
 
@@ -168,8 +168,9 @@ def run_C08(ctx, rep):
 
 def run_C09(ctx, rep):
     names = ('pk_ascent', 'pk_ascent_par', 'pk_init_ascent', 'timeout', 'timeout_par', 'ruletimes', 't_redecl', 't_redecl_clear', 'generic',
-             'inc_start', 'inc_mid', 'inc_end', 'inc_start_par', 'inc_mid_par', 'inc_end_par')
-    gen_driver.run_twins(ctx, rep, lambda n, k: n in names, floors={'T.C': 13})
+             'inc_start', 'inc_mid', 'inc_end', 'inc_start_par', 'inc_mid_par', 'inc_end_par',
+             'inc_redecl_after', 'inc_redecl_before', 'inc_redecl_around')
+    gen_driver.run_twins(ctx, rep, lambda n, k: n in names, floors={'T.C': 16})
     gen_driver.run_gen(ctx, rep, ['G2G7', 'G8'], floors={'G7': 6, 'G8': 60})
 
 
